@@ -648,7 +648,13 @@ fn c19_strategy() -> impl Strategy<Value = C19Case> {
         3 => (0u8..4).prop_map(SOp::SetKey),
         1 => any::<bool>().prop_map(SOp::Enable),
     ];
-    let chain = prop::option::weighted(0.7, prop::collection::vec((0u8..4, 0u8..4), 0..=3).prop_map(|v| v.into_iter().filter(|(a, b)| a != b).collect::<Vec<_>>()));
+    let chain = prop::option::weighted(
+        0.7,
+        prop_oneof![
+            4 => prop::collection::vec((0u8..4, 0u8..4), 0..=3).prop_map(|v| v.into_iter().filter(|(a, b)| a != b).collect::<Vec<_>>()),
+            1 => (1u8..4).prop_map(|k| vec![(k, 0u8)]),
+        ],
+    );
     (
         prop::collection::vec(desc::tl_strategy_animator(finite_timing), 3),
         0u8..4,
@@ -662,7 +668,7 @@ fn c19_strategy() -> impl Strategy<Value = C19Case> {
         .prop_map(|(tls, initial_key, chain, with_b, start, ops, b_delay, ctor_timeline)| C19Case { tls, initial_key, chain, with_b, b_delay, ctor_timeline, start, ops })
 }
 
-const C19_LABELS: [&str; 14] = ["key_change_mid_flight", "chain_fired", "end_without_chain_entry", "other_animator_ended", "key_set_in_gap_after_end", "same_key_reassigned", "key_without_timeline", "has_chain", "two_component_types", "chain_first_order_consistent", "select_first_order_consistent", "ended_reached", "animator_disabled", "animator_constructed_with_a_timeline"];
+const C19_LABELS: [&str; 15] = ["key_change_mid_flight", "chain_fired", "end_without_chain_entry", "other_animator_ended", "key_set_in_gap_after_end", "same_key_reassigned", "key_without_timeline", "has_chain", "two_component_types", "chain_first_order_consistent", "select_first_order_consistent", "ended_reached", "animator_disabled", "animator_constructed_with_a_timeline", "chain_made_with_reset_after"];
 
 /// One hypothesis about the (unspecified but fixed) relative order of chain_animations / select_animation.
 struct Hyp {
@@ -690,19 +696,46 @@ fn c19_judge(c: &C19Case, obs: &mut Obs) -> Result<(), String> {
     // in iteration order): it must not influence the entity under test
     let idle = if c.b_delay % 2 == 1 { Some(app.world.spawn((A::from_vals(&c.start), Animator::<A>::new())).id()) } else { None };
     let mut chain_map = std::collections::HashMap::new();
+    // ... and the two public ways of making the selector
+    let selector = if c.b_delay % 3 == 1 {
+        let mut m: bevy::utils::HashMap<K, Box<dyn bevy_mina::prelude::SafeTimeline<Target = A>>> = bevy::utils::HashMap::new();
+        for (i, t) in c.tls.iter().enumerate().take(3) {
+            m.insert(KEYS[i], Box::new(build_a(t)));
+        }
+        AnimationSelector::<K, A>::new(m, KEYS[c.initial_key as usize % 4])
+    } else {
+        sb.build()
+    };
     let governed = match c.ctor_timeline {
         Some(i) => Animator::<A>::with_timeline(build_a(&c.tls[i as usize % c.tls.len().max(1)])),
         None => Animator::<A>::new(),
     };
     obs.label_if(13, c.ctor_timeline.is_some());
-    let mut ec = app.world.spawn((start.clone(), governed, sb.build()));
+    let mut ec = app.world.spawn((start.clone(), governed, selector));
     if let Some(ch) = &c.chain {
-        let mut cb = AnimationChainBuilder::<K>::new();
         for (f, t) in ch {
-            cb = cb.add(KEYS[*f as usize % 4], KEYS[*t as usize % 4]);
             chain_map.insert(*f % 4, *t % 4);
         }
-        ec.insert(cb.build());
+        // the equivalent public ways of making the same chain: the builder, `reset_after` (one entry
+        // leading to the default key), or `new()` with the public map filled in directly
+        let single_to_default = chain_map.len() == 1 && chain_map.values().all(|t| KEYS[*t as usize] == K::default()) && ch.len() == 1;
+        let chain = if single_to_default && c.b_delay % 2 == 0 {
+            obs.label(14);
+            AnimationChain::<K>::reset_after(KEYS[ch[0].0 as usize % 4])
+        } else if c.initial_key % 2 == 1 {
+            let mut m = AnimationChain::<K>::new();
+            for (f, t) in ch {
+                m.next_keys.insert(KEYS[*f as usize % 4], KEYS[*t as usize % 4]);
+            }
+            m
+        } else {
+            let mut cb = AnimationChainBuilder::<K>::new();
+            for (f, t) in ch {
+                cb = cb.add(KEYS[*f as usize % 4], KEYS[*t as usize % 4]);
+            }
+            cb.build()
+        };
+        ec.insert(chain);
         obs.label(7);
     }
     if let Some(units) = c.with_b {
